@@ -9,6 +9,7 @@ package hist
 import (
 	"context"
 	"fmt"
+	"regexp"
 	"strings"
 
 	"github.com/arr-ai/arrai/pkg/arraictx"
@@ -63,6 +64,101 @@ func (s *state) eval(src string) (v rel.Value, err error, pmsg string) {
 		return nil, fmt.Errorf("malformed array (edge hole); dropped"), ""
 	}
 	return v, err, ""
+}
+
+var reRelHeader = regexp.MustCompile(`^\{\|([^|]*)\|`)
+
+// relNames reads the attribute names of a relation from its printed form.
+func relNames(e *entry) []string {
+	m := reRelHeader.FindStringSubmatch(e.repr)
+	if m == nil {
+		return nil
+	}
+	var out []string
+	for _, n := range strings.Split(m[1], ",") {
+		if n = strings.TrimSpace(n); n != "" {
+			out = append(out, n)
+		}
+	}
+	return out
+}
+
+// relRow writes a tuple with exactly the relation's attributes (so that with/without keep it a relation).
+func (s *state) relRow(e *entry) string {
+	names := relNames(e)
+	if len(names) == 0 {
+		return fmt.Sprintf("(x: %d, y: %d)", s.t.Draw(3), s.t.Draw(4))
+	}
+	var parts []string
+	for _, n := range names {
+		parts = append(parts, fmt.Sprintf("%s: %d", n, s.t.Draw(3)))
+	}
+	return "(" + strings.Join(parts, ", ") + ")"
+}
+
+// rebuild derives pool value i again from nothing: its seed literals and the chain of operations that
+// made it, and no other operation. The copy has the original's representation but none of its past
+// (no comparison, join or derivation was ever applied to it or to its ancestors on the side).
+func (s *state) rebuild(i int, memo map[int]rel.Value) (rel.Value, bool) {
+	if v, ok := memo[i]; ok {
+		return v, v != nil
+	}
+	e := s.pool[i]
+	scope := rel.Scope{}
+	for _, j := range e.operands {
+		if j >= i {
+			memo[i] = nil
+			return nil, false
+		}
+		v, ok := s.rebuild(j, memo)
+		if !ok {
+			memo[i] = nil
+			return nil, false
+		}
+		scope = scope.With(s.pool[j].name, v)
+	}
+	var v rel.Value
+	var err error
+	if _, _, p := run.Guard(func() { v, err = syntax.EvalWithScope(s.ctx, syntax.NoPath, e.src, scope) }); p || err != nil || v == nil {
+		memo[i] = nil
+		return nil, false
+	}
+	if enc.Canon(v) != e.canon {
+		memo[i] = nil
+		return nil, false
+	}
+	memo[i] = v
+	return v, true
+}
+
+// freshCheck repeats step o on operands rebuilt from nothing; it returns a description of the difference.
+func (s *state) freshCheck(o *op, res *entry) string {
+	memo := map[int]rel.Value{}
+	scope := rel.Scope{}
+	for _, i := range o.operands {
+		v, ok := s.rebuild(i, memo)
+		if !ok {
+			s.c.Probe("fresh-copy-unavailable")
+			return ""
+		}
+		scope = scope.With(s.pool[i].name, v)
+	}
+	var v2 rel.Value
+	var err2 error
+	if _, _, p := run.Guard(func() { v2, err2 = syntax.EvalWithScope(s.ctx, syntax.NoPath, o.src, scope) }); p || err2 != nil {
+		s.c.Probe("fresh-copy-step-failed")
+		return ""
+	}
+	s.c.Step()
+	s.c.Probe("fresh-copy-compared")
+	if got := enc.Canon(v2); got != res.canon {
+		var ops []string
+		for _, i := range o.operands {
+			ops = append(ops, s.pool[i].name+" = "+s.pool[i].repr+" (made by `"+s.pool[i].src+"`)")
+		}
+		return fmt.Sprintf("`%s` gives %s, but on operands derived again from nothing (same derivations, no other operation applied to them or their ancestors) it gives %s; operands: %s", o.src, res.repr, v2.String(), strings.Join(ops, "; "))
+	}
+	return ""
 }
 
 var alphabet = []string{"a", "b", "c", "x", "y"}
@@ -229,13 +325,13 @@ func (s *state) genOp(prev *op) *op {
 	return s.opOn(i, s.pool[i], "")
 }
 
-var seqKinds = []string{"with-end", "with-any", "without-last", "without-first", "without-any", "concat", "shift", "seqmap", "iseqmap",
+var seqKinds = []string{"eq", "eq", "lt", "subset", "with-end", "with-any", "without-last", "without-first", "without-any", "concat", "shift", "seqmap", "iseqmap",
 	"union", "inter", "diff", "where", "map", "seq.concat", "seq.join", "seq.split", "seq.sub", "seq.repeat", "seq.trim_prefix", "seq.trim_suffix",
 	"pat-tail", "pat-init", "call", "with-pair"}
-var dictKinds = []string{"dict-with", "dict-merge", "union", "diff", "seqmap", "dict-without", "pat-dict", "where", "call", "inter"}
-var relKinds = []string{"join", "join", "join", "compose", "joinexist", "nest", "where", "map", "rel-with", "rel-without", "union", "diff", "inter", "rank", "orderby", "project"}
-var tupleKinds = []string{"tuple-merge", "pat-tuple", "tuple-get", "tuple-map"}
-var setKinds = []string{"set-with", "set-without", "union", "diff", "inter", "where", "map", "orderby"}
+var dictKinds = []string{"eq", "eq", "lt", "subset", "dict-with", "dict-merge", "union", "diff", "seqmap", "dict-without", "pat-dict", "where", "call", "inter"}
+var relKinds = []string{"eq", "eq", "lt", "subset", "join", "join", "join", "compose", "joinexist", "nest", "where", "map", "rel-with", "rel-without", "union", "diff", "inter", "rank", "orderby", "project"}
+var tupleKinds = []string{"eq", "eq", "lt", "subset", "tuple-merge", "pat-tuple", "tuple-get", "tuple-map"}
+var setKinds = []string{"eq", "eq", "lt", "subset", "set-with", "set-without", "union", "diff", "inter", "where", "map", "orderby"}
 
 func (s *state) elemAttr(class string) (attr string, val string) {
 	switch class {
@@ -293,6 +389,14 @@ func (s *state) opOn(i int, e *entry, forceKind string) *op {
 	o := &op{operands: []int{i}, kind: kind}
 	attr, val := s.elemAttr(e.class)
 	switch kind {
+	case "eq", "lt", "subset":
+		// comparisons compute a boolean FROM the value; they must not touch it either
+		j, m := other(e.class)
+		o.operands = append(o.operands, j)
+		o.src = fmt.Sprintf("%s %s %s", n, map[string]string{"eq": "=", "lt": "<", "subset": "(<=)"}[kind], m)
+		if kind == "eq" && t.Bool(1, 3) {
+			o.src = fmt.Sprintf("%s != %s", n, m)
+		}
 	case "with-end":
 		// index = one past the last index
 		o.src = fmt.Sprintf("%s with (@: ((%s => .@) orderby .)((%s count) - 1) + 1, %s: %s)", n, n, n, attr, val)
@@ -401,8 +505,11 @@ func (s *state) opOn(i int, e *entry, forceKind string) *op {
 		if t.Bool(1, 2) {
 			// a fresh right-hand side that matches every key value and brings one new column: two such joins
 			// from one parent are siblings whose rows and headers grow from the same storage
-			col := []string{"w", "v", "u", "q", "p"}[t.Draw(5)]
+			col := []string{"w", "v", "u", "q", "p", "a", "b", "m"}[t.Draw(8)] // a, b, m: the header is then not in alphabetical order
 			key := []string{"z", "y", "x", "w", "v"}[t.Draw(5)]
+			if names := relNames(e); len(names) > 0 {
+				key = names[t.Draw(len(names))] // an attribute the parent really has: the join matches rows
+			}
 			o.src = fmt.Sprintf("%s %s {|%s, %s| (0, %d), (1, %d), (2, %d), (%d, %d)}", n, opr, key, col, t.Draw(9), t.Draw(9), t.Draw(9), t.Draw(9), t.Draw(9))
 		} else {
 			j, m := other("rel")
@@ -416,9 +523,9 @@ func (s *state) opOn(i int, e *entry, forceKind string) *op {
 		}
 	case "rel-with":
 		o.src = fmt.Sprintf("%s with (%s %s single)", n, n, "where .x?:0 = -1 |"+fmt.Sprintf(" {(x: %d, y: %d)}", t.Draw(3), t.Draw(4)))
-		o.src = fmt.Sprintf("%s with (x: %d, y: %d)", n, t.Draw(3), t.Draw(4))
+		o.src = fmt.Sprintf("%s with %s", n, s.relRow(e))
 	case "rel-without":
-		o.src = fmt.Sprintf("%s without (x: %d, y: %d)", n, t.Draw(3), t.Draw(4))
+		o.src = fmt.Sprintf("%s without %s", n, s.relRow(e))
 	case "rank":
 		o.src = fmt.Sprintf("%s rank (r: .)", n)
 	case "orderby":
@@ -589,6 +696,15 @@ func Run(c *run.Ctx) {
 			if printed != e.repr {
 				c.Violate("immutable", "C03/"+o.kind+"/"+e.class+"/printed",
 					"after `%s`: %s (made by `%s`) printed %s before and prints %s now", o.src, e.name, e.src, e.repr, printed)
+				return
+			}
+		}
+		// Oracle 3: a value is what its derivation made it, whatever else was computed from it or its ancestors
+		// in between. The step is repeated on operands derived again from nothing (seed literals and the same
+		// chain of operations, so the same representation, but none of the side history) and must agree.
+		if err == nil && len(o.operands) > 0 && t.Bool(1, 2) {
+			if diff := s.freshCheck(o, s.pool[len(s.pool)-1]); diff != "" {
+				c.Violate("same-at-every-use", "C03/"+o.kind+"/"+s.pool[o.operands[0]].class+"/history-dependent", "%s", diff)
 				return
 			}
 		}
